@@ -220,7 +220,7 @@ class _ModeMixin:
 
     @classmethod
     def from_dict(cls, d):
-        return cls(**{k: v for k, v in d.items() if k in ("mode", "k", "two_way", "perm", "restricted", "reversible")})
+        return cls(**{k: v for k, v in d.items() if k in ("mode", "k", "two_way", "perm", "restricted", "reversible", "cut")})
 
     def __repr__(self):
         return f"{type(self).__name__}({self.mode!r})"
@@ -380,8 +380,20 @@ def safe_front(c):
 class Peel(_ModeMixin, CartesianProductStrategy):
     """prefix = front + back where no pattern occurrence can straddle/continue from the front: atom(front) x rest"""
 
-    def _kids(self, c):
+    def __init__(self, mode="", cut=None):
+        self.cut = cut  # None: split at the longest safe front; k: split after the first k letters (only where that is safe and shorter)
+        super().__init__(mode=mode)
+
+    def _split(self, c):
         s = safe_front(c)
+        if self.cut is None:
+            return s
+        # a cut at most len(prefix) - (longest pattern) + 1 letters in: no occurrence starting in the front can leave the prefix
+        s0 = max(0, len(c.prefix) - max((len(p) for p in c.patterns), default=1) + 1)
+        return self.cut if 0 < self.cut <= s0 and self.cut < s else 0
+
+    def _kids(self, c):
+        s = self._split(c)
         res = []
         for pre, jp, sh in [(c.prefix[:s], True, 0), (c.prefix[s:], False, s)]:
             cp, m = child_params(c, self.mode.replace("drop", "").replace("track", ""), pre, sh)
@@ -389,9 +401,17 @@ class Peel(_ModeMixin, CartesianProductStrategy):
         return res
 
     def decomposition_function(self, c):
-        if isinstance(c, SW) or c.just_prefix or safe_front(c) <= 0 or (c.is_empty() and not LOOSE_EMPTY):
+        if isinstance(c, SW) or c.just_prefix or self._split(c) <= 0 or (c.is_empty() and not LOOSE_EMPTY):
             return None  # (declares its children non-empty: does not apply to an empty class)
         return tuple(k for k, _ in self._kids(c))
+
+    def to_jsonable(self):
+        d = super().to_jsonable()
+        d["cut"] = self.cut
+        return d
+
+    def __repr__(self):
+        return f"Peel({self.mode!r})" if self.cut is None else f"Peel({self.mode!r},cut={self.cut})"
 
     def extra_parameters(self, c, children=None):
         return tuple(m for _, m in self._kids(c))
@@ -400,7 +420,7 @@ class Peel(_ModeMixin, CartesianProductStrategy):
         return not LAZY_MIN  # the quotient needs the exact minimum sizes of the siblings
 
     def formal_step(self):
-        return f"peel {self.mode}".strip()
+        return f"peel {self.mode}".strip() + (f" cut={self.cut}" if self.cut is not None else "")
 
     def backward_map(self, c, ws, children=None):
         yield W(ws[0] + ws[1])
